@@ -340,7 +340,7 @@ def rule_parse_wiring(chk, fb):
     r = chk.rule(
         "C08.c.parse",
         "parsed components are wired to their own axis: wherever a result of the coordinate parser is stored into a column (row) reference, the number comes from tuple component 0 (1) and the lock flag from component 2 (3), and from no other component",
-        floor=8,
+        floor=4,
     )
     want = {("ColumnReference", "set_num"): "0", ("ColumnReference", "set_is_lock"): "2", ("RowReference", "set_num"): "1", ("RowReference", "set_is_lock"): "3"}
     for d, b in sorted(fb.mir.items()):
